@@ -57,14 +57,14 @@ def strip_comments(src: str) -> str:
     src = re.sub(r"/-.*?-/", "", src, flags=re.S)
     return re.sub(r"--.*", "", src)
 
-def prove(pid: str):
+def prove(pid: str, tier: str = "quick"):
     """build the modules registered for `pid` and audit the axioms of its theorems.
     Returns dict(obligations, discharged, failed:[...], build_ok, driver_ok, translator_ok, log)"""
     os.makedirs(CACHE, exist_ok=True)
     t_ok, t_msg = translate()
     reg = registry().get(pid, {"modules": [], "theorems": []})
     key = lean_sources_hash()
-    cpath = os.path.join(CACHE, f"prove_{pid}_{key}.json")
+    cpath = os.path.join(CACHE, f"prove_{pid}_{tier}_{key}.json")
     if os.path.exists(cpath):
         r = json.load(open(cpath)); r["cached"] = True; r["translator_ok"] = t_ok; r["translator_msg"] = t_msg
         return r
@@ -124,6 +124,14 @@ def prove(pid: str):
                     res["failed"].append(f"{nm}: axioms {sorted(found[nm] - ALLOWED_AXIOMS)}")
                 else:
                     res["discharged"] += 1
+            if tier == "thorough" and not bad_modules:
+                # independent re-check of the compiled proofs (the property file and every proof module it imports from OSq.Proofs / OSq.Sem)
+                mods = list(reg["modules"]) + list(reg.get("proof_modules", []))
+                rc, out = sh(["lake", "env", "leanchecker", *mods], cwd=LEAN, timeout=7200)
+                res["leanchecker"] = {"modules": mods, "exit": rc, "tail": out[-500:]}
+                if rc != 0:
+                    res["failed"].append("leanchecker rejected the compiled modules: " + out[-300:])
+                    res["discharged"] = 0
     finally:
         lock.close()
     if res["driver_ok"]:
@@ -192,7 +200,8 @@ def finish(run: Run, prove_res, level_note=""):
         "property_id": run.pid, "tier": run.tier, "seed": run.seed, "level": "proof",
         "coverage": {
             "obligations": prove_res["obligations"], "discharged": prove_res["discharged"],
-            "checker_cmd": "lake build <registered modules> && lake env lean .cache/Audit_%s.lean  (#print axioms per theorem)" % run.pid,
+            "checker_cmd": "lake build OSq.Props.%s && lake env lean .cache/Audit_%s.lean  (#print axioms + statement hash per theorem)%s" % (run.pid, run.pid, "; lake env leanchecker <property and proof modules>" if run.tier == "thorough" else ""),
+            "leanchecker": prove_res.get("leanchecker"),
             "trusted_base": TRUSTED_BASE,
             "theorem_failures": prove_res["failed"],
             "axioms_used_by_the_audited_theorems": prove_res.get("axioms_used", []),
